@@ -189,6 +189,21 @@ func readOuts(res *Result, outs []tensor.Tensor) {
 			res.ReadErr = fmt.Sprintf("output %d: %v", i, err)
 			continue
 		}
+		// a result is a plain tensor: its backing array read in order (what Data() gives, and what gonnx's own
+		// operators read) is its logical content - no pending transpose, no strided view
+		if d, ok := o.(*tensor.Dense); ok && (d.RequiresIterator() || d.IsMaterializable()) && len(t.V) > 1 {
+			if raw, okr := rawBits(d.Data()); okr {
+				runtime.KeepAlive(d)
+				same := len(raw) == len(t.V)
+				for k := 0; same && k < len(raw); k++ {
+					same = raw[k] == t.V[k]
+				}
+				if !same {
+					res.ReadErr = fmt.Sprintf("output %d (shape %v) is handed out with a pending transpose / as a strided view: its Data() is not its content in row-major order", i, t.Shape)
+					continue
+				}
+			}
+		}
 		res.Outs[i] = t
 	}
 }
